@@ -319,6 +319,8 @@ fn deliver_case(out: &mut Out, rng: &mut Rng, form: u64, v: u8, handler: u64, de
         req.flags,
         req.rsp_off,
         req.frame_gap,
+        req.cs,
+        req.ss,
     ];
     let s = o.seen;
     let seen = format!(
@@ -443,6 +445,12 @@ pub fn run(out: &mut Out, rng: &mut Rng, tier: Tier) {
             None => "panic".into(),
         };
         out.emit("gh_index", &[v as u64], &text, true);
+    }
+
+    // the harness' own gate decoder against the spec's, on random words
+    for _ in 0..tier.n(2000, 20000) {
+        let e = [rng.next(), if rng.chance(1, 4) { rng.word() } else { rng.next() }];
+        out.emit("gh_gate", &e, &format!("{} {}", gate_present(&e) as u8, gate_offset(&e)), true);
     }
 
     // ---- part 2: installation ----------------------------------------------------------------
